@@ -123,7 +123,10 @@ def dec(o):
         return relativedelta(**{k: dec(v) for k, v in o["$rd"].items()})
     if "$tz" in o:
         from mc import zones
-        return zones.build(dec(o["$tz"]))
+        try:
+            return zones.build(dec(o["$tz"]))
+        except Exception:
+            return o              # known only by its repr
     if "$repr" in o or "$exc" in o:
         return o
     return {k: dec(v) for k, v in o.items()}
